@@ -31,6 +31,10 @@ def gen_cases(ctx):
             params = [f"p{i}={NAMED_VALS[(i + n) % len(NAMED_VALS)]}" for i in range(n)]
             text = nm + "(" + ", ".join(params) + ")"
             cases.append(("named", nm, tuple(params), text))
+            # names that are NOT in ascending order, and names differing in case / by namespace-like prefixes (source order must be kept)
+            unsorted_names = ["unit", "radius", "Zeta", "alpha", "_x"][:n]
+            params = [f"{k}={NAMED_VALS[(i + n) % len(NAMED_VALS)]}" for i, k in enumerate(unsorted_names)]
+            cases.append(("named", nm, tuple(params), nm + "(" + ", ".join(params) + ")"))
         # single-argument call spelled as a one-element list: f(x,)
         cases.append(("pos", nm, ("1",), nm + "(1,)"))
         # every argument kind as the only argument (a parenthesised list is ONE argument)
